@@ -614,6 +614,8 @@ struct Engine {
     transitions: u64,
     /// bytes to put at the output path before the next download (probe only)
     prefill: Option<Vec<u8>>,
+    /// the next reconstruction writes to a path inside a directory that does not exist
+    missing_dir: bool,
 }
 
 impl Engine {
@@ -655,7 +657,7 @@ impl Engine {
             std::thread::spawn(move || serve(server, sh, xorbs, endpoint, sabotage));
         }
         let pool = Arc::new(xet_threadpool::ThreadPool::from_external(rt.handle().clone()));
-        Engine { rt, idle, sh, xorbs, endpoint, root, pool, seq: 0, writer_seq, conc, nocache: None, transitions: 0, prefill: None }
+        Engine { rt, idle, sh, xorbs, endpoint, root, pool, seq: 0, writer_seq, conc, nocache: None, transitions: 0, prefill: None, missing_dir: false }
     }
 
     fn new_client(&self, cache_dir: Option<&Path>) -> Arc<RemoteClient> {
@@ -705,7 +707,7 @@ impl Engine {
             st.progress.clear();
             st.lz4_frames_served = 0;
         }
-        let path = self.root.join(format!("out-{gen}"));
+        let path = if std::mem::take(&mut self.missing_dir) { self.root.join(format!("no-such-directory-{gen}")).join("out") } else { self.root.join(format!("out-{gen}")) };
         let _ = std::fs::remove_file(&path);
         if let Some(b) = self.prefill.take() {
             let _ = std::fs::write(&path, b);
@@ -1577,6 +1579,29 @@ impl Explorer {
             };
             self.out.count(&format!("info:probe_out_of_domain:{name}:{text}"), 1);
         }
+        // an output path that cannot be created (its directory does not exist), whole file and a mid-term range:
+        // whatever get_file does, the length it reports must be the bytes it wrote - an error is fine, a reported
+        // length with nothing written is not
+        for req in [None, Some((1u64, len - 1))] {
+            self.eng.missing_dir = true;
+            let p = plan(&xorbs, &file, req.map(|(s, e)| (s, e - 1)), Style::Whole).unwrap();
+            let tk: Vec<Option<Key>> = chosen_keys(&p).into_iter().map(Some).collect();
+            let script: Vec<Key> = tk.iter().flatten().copied().collect();
+            let tr = self.eng.reconstruct(&client, &file, req, Style::Whole, 0, &script, &tk);
+            let written = tr.out.as_ref().map(|o| o.len()).unwrap_or(0) as u64;
+            self.out.count("reconstructions", 1);
+            self.out.count("vac:reconstructions_to_an_uncreatable_output_path", 1);
+            match &tr.outcome {
+                Outcome::Ok(n) if *n != written => self.out.violation(
+                    "C17/reported-length",
+                    format!("output path in a directory that does not exist (range {req:?}): get_file returned Ok({n}) but {written} bytes exist at the output path"),
+                    json!({"lab": "reconstruct", "kind": "probe-uncreatable-output"}),
+                ),
+                Outcome::Panic(m, loc) => self.out.violation(&format!("C17/panic:{loc}"), format!("output path in a directory that does not exist: {m}"), json!({"lab": "reconstruct", "kind": "probe-uncreatable-output"})),
+                Outcome::Hang { .. } => self.out.violation("C17/hang", "output path in a directory that does not exist: the download never returned".to_string(), json!({"lab": "reconstruct", "kind": "probe-uncreatable-output"})),
+                _ => self.out.count("info:uncreatable_output_path_reported_as_error", 1),
+            }
+        }
         // an output path that already holds a longer file: FileProvider opens without truncation
         self.eng.prefill = Some(vec![0xEE; 64]);
         let p = plan(&xorbs, &file, None, Style::Whole).unwrap();
@@ -1810,6 +1835,12 @@ fn main() {
         let r = v["replay"].clone();
         if r["lab"].as_str() != Some("reconstruct") {
             machinery_error("replay file is not from lab_reconstruct");
+        }
+        if r["kind"].as_str() == Some("probe-uncreatable-output") {
+            // the probes are few and cheap: all of them are run again in every process kind
+            for (ws, c) in kinds() {
+                jobs.push(job(format!("probes {}", kind_name(ws, c)), ws, c, json!({"probes": true}), tier, scratch.path()));
+            }
         }
         let both = r["cache"].as_str() == Some("any") && r["writer"].is_null();
         for (ws, c) in kinds() {
